@@ -289,7 +289,7 @@ def run_tlc(module: str, cfg: str, *, workers: int | str = 'auto', simulate: str
     wd = workdir('tlc')
     res = TLCResult()
     try:
-        cmd = ['java', '-XX:+UseParallelGC', '-Xmx12g', '-DTLA-Library=' + SPEC]
+        cmd = ['java', '-XX:+UseParallelGC', '-Xmx12g', '-Xss256m', '-DTLA-Library=' + SPEC]
         if dfs:
             cmd.append('-Dtlc2.tool.queue.IStateQueue=StateDeque')
         cmd += ['-cp', '/opt/veriftools/tla/tla2tools.jar:/opt/veriftools/tla/CommunityModules-deps.jar',
@@ -338,7 +338,7 @@ def run_tlc(module: str, cfg: str, *, workers: int | str = 'auto', simulate: str
         elif 'is violated' in out or 'was violated' in out:
             m2 = re.search(r'property (\S+) (?:is|was) violated', out)
             res.violated = m2.group(1) if m2 else 'property'
-        if 'Postcondition' in out and 'violated' in out or 'POSTCONDITION' in out and 'violated' in out:
+        if re.search(r'Postcondition \S+ .*is false', out) or ('Postcondition' in out and 'violated' in out):
             res.post_failed = True
         if res.violated is None and res.error is None and not res.post_failed:
             if res.rc not in (0,):
